@@ -390,6 +390,17 @@ func (m *monC12) OnStep(r *Runner, st *Step) {
 					}
 				}
 			}
+			// ... including what was still pending in x/distribution: the hook settles it and pays it out at the
+			// inflated value in the same step
+			if gmax.Cmp(big.NewRat(1, 1)) > 0 {
+				for _, f := range flowsOf(st.Events) {
+					if f.Kind == "transfer" && f.From == r.W.RewardsAddr.String() {
+						if a := f.Coins.AmountOf(d); a.IsPositive() {
+							revalBound = radd(revalBound, radd(rmul(ratInt(a), rsub(big.NewRat(1, 1), rquo(big.NewRat(1, 1), gmax))), big.NewRat(1, 1)))
+						}
+					}
+				}
+			}
 			for pk, e := range m.ent {
 				// claimed by the hook in this step: its entitlement is gone (or smaller) afterwards
 				if !ent[pk].AmountOf(d).LT(e.AmountOf(d)) {
